@@ -137,6 +137,10 @@ class GridDistortion:
 
         # the axial point of an odd grid has no relative distortion
         off_axis = rp > 1e-12 * np.max(rp)
-        data['max_distortion'] = np.max(100 * delta[off_axis] / rp[off_axis])
+        relative = 100 * delta[off_axis] / rp[off_axis]
+        # no defined point at all (the reference ray could not be traced):
+        # the maximum is undefined, as it was before the axial point was
+        # excluded
+        data['max_distortion'] = np.max(relative) if relative.size else np.nan
 
         return data
